@@ -56,6 +56,7 @@ func (P *Prog) VerifyFunc(f *ssa.Function, c *Contract) *Trans {
 	}
 	fr := t.newFrame(f, args, shortKey(key))
 	fr.top = true
+	t.topFrame = fr
 	fr.contract = c
 	fr.tags = c.AllTags()
 	for i, fv := range f.FreeVars {
